@@ -18,7 +18,8 @@
     what the implementation returns for the serialised octets.
     sha256 is the Section variable [hash]; database ids are positions (row ids
     increase in insertion order).  Bugs are modelled as they are.
-    Code as of the fixes C02-1 .. C02-6 (fixes/C02-*.patch). *)
+    Code as of the fixes C02-1 .. C02-6 and of 84a3070 / eb5748f (parts are written
+    as stored, followed by the CRLF of the delimiter; no base64 re-wrap) and 12a5042. *)
 From Coq Require Import String Ascii List Bool Arith NArith ZArith.
 From Raven Require Import Base.GoStr Base.GoStrMime Spec.Mime Model.MimeHeaders.
 Import ListNotations.
@@ -159,18 +160,26 @@ Definition opt_nat_eqb (a b : option nat) : bool :=
 Definition out_of_line (p : ppart) : bool :=
   (1024 <? N.of_nat (length (pp_text p)))%N || nonempty (pp_filename p).
 
-(** the loop of StoreMessagePerUserWithSharedDBAndS3 over parsed.Parts *)
-Fixpoint store_parts (bs : blobs) (done todo : list ppart) (rows : list row) : blobs * list row :=
+(** the loop of StoreMessagePerUserWithSharedDBAndS3 over parsed.Parts.
+    [faults]: one boolean per out-of-line part, in order ([true] = the write to the
+    blobs table of the shared database fails: StoreBlob(S3)WithEncoding returns an
+    error — database locked past the busy timeout, I/O fault, UNIQUE race — while the
+    per-user store stays writable). A failed blob store leaves the blob table as it
+    is and the part keeps its content in line; the store call still succeeds. *)
+Fixpoint store_parts (faults : list bool) (bs : blobs) (done todo : list ppart) (rows : list row) : blobs * list row :=
   match todo with
   | [] => (bs, rows)
   | p :: rest =>
-      let '(bs', blob, text) :=
+      let '(faults', bs', blob, text) :=
         if out_of_line p
-        then let '(b, id) := store_blob bs (pp_text p) (pp_cte p) in
+        then
+          if hd false faults then (tl faults, bs, None, pp_text p)      (* blob store failed *)
+          else
+          let '(b, id) := store_blob bs (pp_text p) (pp_cte p) in
              (* C02-6 blobHoldsContent: the row must hold exactly these octets, else the
                 part stays inline (the reference count is not modelled) *)
-             if str_eqb (get_blob b id) (pp_text p) then (b, Some id, []) else (b, None, pp_text p)
-        else (bs, None, pp_text p) in
+             if str_eqb (get_blob b id) (pp_text p) then (tl faults, b, Some id, []) else (tl faults, b, None, pp_text p)
+        else (faults, bs, None, pp_text p) in
       let parent_db := match pp_parent p with
                        | Some j => if j <? length done then Some j else None
                        | None => None
@@ -178,31 +187,22 @@ Fixpoint store_parts (bs : blobs) (done todo : list ppart) (rows : list row) : b
       let pn := S (length (filter (fun q => opt_nat_eqb (pp_parent q) (pp_parent p)) done)) in
       let p' := mk_pp (pp_parent p) (pp_type p) (pp_disp p) (pp_cte p) (pp_charset p)
                       (pp_filename p) (pp_cid p) text in
-      store_parts bs' (done ++ [p]) rest (rows ++ [mk_row pn parent_db p' blob])
+      store_parts faults' bs' (done ++ [p]) rest (rows ++ [mk_row pn parent_db p' blob])
   end.
 
-Definition store (bs : blobs) (m : msg) : blobs * stored :=
+Definition store (faults : list bool) (bs : blobs) (m : msg) : blobs * stored :=
   let '(hs, parts) := parse_msg m in
-  let '(bs', rows) := store_parts bs [] parts [] in
+  let '(bs', rows) := store_parts faults bs [] parts [] in
   (bs', mk_stored hs rows).
 
 (** ---- rebuild *)
 Definition row_content (bs : blobs) (r : row) : str :=
   match r_blob r with Some id => get_blob bs id | None => pp_text (r_part r) end.
 
-(** writePartContentWithS3: base64 content is re-wrapped unless it already has
-    several CRLF-separated lines of at most 78 octets *)
-Definition already_wrapped (content : str) : bool :=
-  let lines := split content crlf in
-  match lines with
-  | [] | [_] => false
-  | _ => forallb (fun l => (N.of_nat (length l) <=? 78)%N) lines
-  end.
-
-Definition written_content (cte content : str) : str :=
-  let c := if equal_fold (trim_space cte) s_base64 && negb (already_wrapped content)
-           then wrap76 (strip_crlf content) else content in
-  if has_suffix c crlf then c else c ++ crlf.
+(** writePartContentWithS3 (84a3070, eb5748f): the content as it is stored, then the
+    CRLF that belongs to the following delimiter — always, also after content that
+    itself ends in CRLF; no re-wrapping of base64 text *)
+Definition written_content (content : str) : str := content ++ crlf.
 
 (** writePartHeaders + writePartContentWithS3, read back as a leaf *)
 Definition emit_leaf (bs : blobs) (r : row) : leaf :=
@@ -221,7 +221,7 @@ Definition emit_leaf (bs : blobs) (r : row) : leaf :=
          else ([], []) in
   let ctname := if is_blank (pp_disp p) && has_fn then pp_filename p else [] in   (* C02-5 *)
   mk_leaf (pp_type p) (pp_charset p) ctname cte disp fname cid
-          (drop_final_crlf (written_content (pp_cte p) (row_content bs r))).
+          (drop_final_crlf (written_content (row_content bs r))).
 
 Definition indexed {A} (l : list A) : list (nat * A) := combine (seq 0 (length l)) l.
 
@@ -293,7 +293,7 @@ Definition fetch (bs : blobs) (st : stored) : option msg :=
 
 (** submission followed by a fetch at any later time ([later] = blobs added
     by messages stored in between) *)
-Definition roundtrip (bs : blobs) (m : msg) (later : blobs) : option msg :=
-  let '(bs', st) := store bs m in fetch (bs' ++ later) st.
+Definition roundtrip (faults : list bool) (bs : blobs) (m : msg) (later : blobs) : option msg :=
+  let '(bs', st) := store faults bs m in fetch (bs' ++ later) st.
 
 End Store.
